@@ -26,17 +26,72 @@ def _load(ctx, name: str) -> dict:
         return json.load(f)
 
 
+def _source_elements(fn: ast.AST, ret: ast.AST) -> Optional[List[ast.AST]]:
+    """The (source, category) tuples the function returns: a list literal, or the flattening comprehension
+    `[(source, category) for category, sources in TABLE for source in sources]` over literal tables held in locals bound once."""
+    once: Dict[str, ast.AST] = {}
+    cnt: Dict[str, int] = {}
+    for n in ast.walk(fn):
+        if isinstance(n, ast.Name) and isinstance(n.ctx, ast.Store):
+            cnt[n.id] = cnt.get(n.id, 0) + 1
+    for n in ast.walk(fn):
+        if isinstance(n, ast.Assign) and len(n.targets) == 1 and isinstance(n.targets[0], ast.Name) and cnt.get(n.targets[0].id) == 1:
+            once[n.targets[0].id] = n.value
+
+    def lit(e):
+        if isinstance(e, ast.Name) and e.id in once:
+            e = once[e.id]
+        return e if isinstance(e, (ast.List, ast.Tuple)) else None
+    if isinstance(ret, ast.Name) and ret.id in once:
+        ret = once[ret.id]
+    if isinstance(ret, ast.List):
+        return list(ret.elts)
+    if isinstance(ret, ast.ListComp) and len(ret.generators) == 2 and isinstance(ret.elt, ast.Tuple) and len(ret.elt.elts) == 2 \
+            and not ret.generators[0].ifs and not ret.generators[1].ifs:
+        g1, g2 = ret.generators
+        table = lit(g1.iter)
+        if table is None or not (isinstance(g1.target, ast.Tuple) and len(g1.target.elts) == 2 and all(isinstance(x, ast.Name) for x in g1.target.elts)) \
+                or not isinstance(g2.target, ast.Name) or not isinstance(g2.iter, ast.Name):
+            return None
+        a, b = g1.target.elts[0].id, g1.target.elts[1].id
+        if g2.iter.id not in (a, b):
+            return None
+        cat_name = a if g2.iter.id == b else b
+        out = []
+        for row in table.elts:
+            if not (isinstance(row, ast.Tuple) and len(row.elts) == 2):
+                return None
+            cat_e, srcs_e = (row.elts[0], row.elts[1]) if cat_name == a else (row.elts[1], row.elts[0])
+            srcs = lit(srcs_e)
+            if srcs is None:
+                return None
+            for s_ in srcs.elts:
+                pair = []
+                for x in ret.elt.elts:
+                    if isinstance(x, ast.Name) and x.id == g2.target.id:
+                        pair.append(s_)
+                    elif isinstance(x, ast.Name) and x.id == cat_name:
+                        pair.append(cat_e)
+                    else:
+                        return None
+                out.append(ast.Tuple(elts=pair, ctx=ast.Load()))
+        return out
+    return None
+
+
 def _sources(ctx) -> List[Tuple[str, str]]:
     """(class name, category) in the order of GeophiresXSchemaGenerator.get_parameter_sources."""
     repo = ctx.repo
     f = repo.method('GeophiresXSchemaGenerator', 'get_parameter_sources')
     rets = [r.value for r in ast.walk(f.node) if isinstance(r, ast.Return)]
-    ctx.require(len(rets) == 1 and isinstance(rets[0], ast.List), 'get_parameter_sources: list literal not found')
+    ctx.require(len(rets) == 1, 'get_parameter_sources: single return not found')
+    elts = _source_elements(f.node, rets[0])
+    ctx.require(elts is not None, 'get_parameter_sources: list literal not found')
     cg = get_callgraph(repo)
     # default role classes: first assignment of each role in Model.__init__
     defaults = {r: (cs[0].name if cs else None) for r, cs in cg.roles.items()}
     out = []
-    for e in rets[0].elts:
+    for e in elts:
         if not (isinstance(e, ast.Tuple) and len(e.elts) == 2):
             raise AnalysisError(f'get_parameter_sources: unsupported element {norm(e)}')
         src, cat = e.elts
